@@ -431,6 +431,15 @@ theorem hyp_validate_gas {hrp : String} {orb tok rec_ hook : Bytes} {domain : Na
   simp only [Bool.or_eq_true, decide_eq_true_eq, not_or, Int.not_lt, ge_iff_le, Int.not_le] at hg
   exact hg
 
+/-- A Hyperlane gas limit outside 0 … 2^64−1 never passes the validation of the attributes: the payload is refused with an error
+acknowledgement before anything reaches the Hyperlane module (repair `3c0ea7a`; before it, 2^255 made the module's gas
+paymaster panic — `findings/C14-hyp-gas-limit-overflow.replay.json`). -/
+theorem c14_gas_limit_out_of_range_refused {hrp : String} {orb tok rec_ hook : Bytes} {domain : Nat} {hmeta feeDenom : String} {gas feeAmt : Int}
+    (h : gas < 0 ∨ 18446744073709551616 ≤ gas) : (Attrs.hyp tok domain rec_ hook hmeta gas feeDenom feeAmt).validate hrp orb ≠ .ok () := by
+  intro hv
+  have := hyp_validate_gas hv
+  omega
+
 theorem forwarderHandle_noPanic (cfg : Cfg) (π : OneofOrder) (φ : Faults) (o : OrbState) (c : Ctx) (t : TransferAttrs) (f : Forwarding)
     (hsane : IgpSane c.ext) : (forwarderHandle (appWiring cfg π) φ o c t f).NoPanic := by
   unfold forwarderHandle
